@@ -172,11 +172,16 @@ TEMPLATES_A = [
     "{% for i in xs %}{{ i }}{% endfor %}", "[{% for i in xs %}{{ i }},{% endfor %}]", "{% for i in xs %}{{ x }}{% endfor %}",
     "{{ x|default(y) }}", "{{ nope }}", "{{ nope }}{{ x }}", "{{ x if c else y }}", "{{ [x, y] }}", "{{ {'k': x} }}",
     "{% macro m(a) %}{{ a }}{% endmacro %}{{ m(x) }}", "{% set q = x %}{{ q }}", "{{ x }}{# c #}", "{{- x -}}",
-    "{% raw %}{{ x }}{% endraw %}", "", "  ", "{{ x ~ y }}", "{{ x }}\n", "-{{ x }}", "{{ (x, y) }}", "{{ x.v }}",
+    "{% raw %}{{ x }}{% endraw %}", "", "  ", "{{ x }}{{ '' }}", "{{ '' }}{{ x }}", "{{ '' }}", "{{ '' ~ '' }}{{ x }}{{ '' }}",
+    "{% extends 'p' %}{% block b %}{{ super() }}{% endblock %}", "{% extends 'p' %}{% block b %}{{ super() }}{{ y }}{% endblock %}",
+    "{% if false %}{% block c %}{{ x }}{% endblock %}{% endif %}{{ self.c() }}", "{% extends 'p2' %}{% block b %}{{ x }}{% endblock %}",
+    "{% macro m() %}{{ x }}{% endmacro %}{{ m() }}", "{% include 'inc' %}", "{% import 'lib' as l %}{{ l.v }}", "{{ x ~ y }}", "{{ x }}\n", "-{{ x }}", "{{ (x, y) }}", "{{ x.v }}",
 ]
 FIXED_TEXTS = ["{[1]: 2}", "{ {} }", "{ {1: 2}: 3 }", "{[]}", "-" * 3000 + "1", "not " * 2000 + "1", "1" + "+1j" * 2500,
                "[" * 60 + "]" * 60, "1\x00", "9" * 4400, "'" + "a" * 10, "1 if 1 else 2", "f'{1}'", "__import__('os')"]
-NODES = ["T:abc", "T:1", "T:[", "T:]", "T:, ", "T: ", "C:1", "C:2.5", "C:[1, 2]", "C:none", "C:true", "S:a", "S:1", "V"]
+NODES = ["T:abc", "T:1", "T:[", "T:]", "T:, ", "T: ", "C:1", "C:2.5", "C:[1, 2]", "C:none", "C:true", "S:a", "S:1", "S:", "V"]
+LOADER = {"p": "{% block b %}{{ x }}{% endblock %}", "p2": "{{ self.b() }}{% if false %}{% block b %}{% endblock %}{% endif %}",
+          "inc": "{{ x }}", "lib": "{% set v = 7 %}"}
 
 
 def node_template(nodes, vals):
@@ -223,7 +228,8 @@ def run(ctx):
             ctx.trusted.append("Gen_native (native_concat source = model; member shapes): " + " ".join(out.split()))
     except native_translate.Untranslatable as e:
         ctx.broken.append(f"translator gen/native_translate.py: nativetypes left the translatable vocabulary: {e}")
-    envs = {False: NativeEnvironment(), True: NativeEnvironment(enable_async=True)}
+    envs = {False: NativeEnvironment(loader=jinja2.DictLoader(LOADER)),
+            True: NativeEnvironment(enable_async=True, loader=jinja2.DictLoader(LOADER))}
 
     cases = []   # (label, source, vars, predicted pieces or None)
     for _ in range(ctx.size(1500, 20000)):
@@ -266,6 +272,13 @@ def run(ctx):
             except Exception as e:  # noqa
                 ctx.count("render_raises")
                 continue
+            # the async root render function must yield the same output nodes as the sync one (the statement
+            # covers async-enabled environments with the same documented value)
+            if enc_pieces(pieces)[0] != enc_pieces(apieces)[0]:
+                ctx.reject({"stream": label, "template": src, "vars": repr(vars_)[:300]},
+                           f"output nodes differ: sync {[type(p).__name__ for p in pieces]} {enc_pieces(pieces)[0][:6]}, "
+                           f"async {[type(p).__name__ for p in apieces]} {enc_pieces(apieces)[0][:6]}",
+                           "native: async-enabled environment yields other output nodes than the sync one")
         else:
             pieces = apieces = predicted
         jobs.append((label, src, vars_, ts, ta, pieces, apieces))
